@@ -345,8 +345,12 @@ POLE_PROTO = {"small": "small-electric-pole", "medium": "medium-electric-pole",
               "big": "big-electric-pole", "substation": "substation"}
 
 
-def check_power(w: World, pole_type: str | None, res: dict, excl=frozenset()) -> None:
-    poles = [e for e in w.ents.values() if e.kind == "pole"]
+def check_power(w: World, pole_type: str | None, res: dict, excl=frozenset(), user_poles=frozenset()) -> None:
+    def is_user(p):
+        tw, th = gamedata.tile_size(p.name, p.direction)
+        return (p.name, int(round(p.x - tw / 2.0)), int(round(p.y - th / 2.0))) in user_poles
+
+    poles = [e for e in w.ents.values() if e.kind == "pole" and not is_user(e)]
     if pole_type is None:
         # without the option no pole other than circuit relays may be emitted
         wired = {e for (e1, _c1, e2, _c2, _col) in w.wires for e in (e1, e2)}
